@@ -407,6 +407,13 @@ def c09_structured(seed, tier):
     for fld in ["bus", "vendor", "product", "version"]:
         for ill in ILL + ["65536", "-1"]:
             texts.append(base.replace("  %s = " % fld, "  %s = %s #" % (fld, ill), 1))
+    # byte-order marks, line endings, NULs and blanks around and inside otherwise valid text
+    tokens = ["\ufeff", "\n\ufeff", " \t\ufeff", "\ufeff\ufeff", "\r\n", "\r", "\x00", "\ufffe", " " * 300, "\n" * 300,
+              "\t", "\u2028", "#", "# \ufeff\n"]
+    mid = base.index("\n", len(base) // 2) + 1
+    for tok in tokens:
+        texts += [tok + base, base + tok, tok + "\n" + base, "\n" + tok + base, base[:mid] + tok + base[mid:], tok, tok * 3 + base]
+    texts.append(base.replace("\n", "\r\n"))
     texts += ["", "\n", "[[mapping.keys]]\n", "[[mapping.keys]]\nsubhandler = \"\"\n[mapping.keys.map]\nKEY_A = \"1\"\n",
               "[[mapping.analog]]\n[mapping.analog.map]\nABS_X = { type = \"cc\" }\n", "mappin = \"Default\"\n", "velcity = 64\n",
               "[defaults]\nvelcity = 64\n", "[[mapping]]\nnam = 1\n", "[[mapping]]\n[[mapping.keys]]\nsubhandlr = 1\n",
